@@ -107,6 +107,7 @@ type c20Case struct {
 	ViaFile bool    `json:"via_file,omitempty"`
 	// wired: per Load, the number of upkeeps in each report transmitted before it
 	Loads [][]int `json:"loads,omitempty"`
+	Late     []int    `json:"late,omitempty"` // wired: reports (upkeep counts) transmitted after the last block was assembled: accepted, never in a block, not performs
 	Dups     int      `json:"dups,omitempty"` // wired: every report is submitted again, same round, by this many other nodes (as all nodes of a real run do)
 	// verdict
 	Trackers        []c20Tracker `json:"trackers,omitempty"`
@@ -761,12 +762,33 @@ func runWiredCase(t *testing.T, c *c20Case) {
 			synctest.Wait()
 			time.Sleep(20 * time.Millisecond)
 		}
+		for li, k := range c.Late {
+			// a transmit that arrives after the last block of the run was assembled never reaches the chain
+			var results []common.CheckResult
+			for j := 0; j < k; j++ {
+				id := UpkeepID(0, 1+j)
+				if len(ups) > 0 {
+					id = common.UpkeepIdentifier(ups[(j+li)%len(ups)].UpkeepID)
+				}
+				trg := common.NewTrigger(common.BlockNumber(c.Genesis+uint64(len(c.Loads)+li)), Hash32("late", li))
+				results = append(results, common.CheckResult{UpkeepID: id, Trigger: trg, WorkID: simutil.UpkeepWorkID(id, trg)})
+			}
+			rep, err := simutil.EncodeCheckResultsToReportBytes(results)
+			if err != nil {
+				t.Fatal(err)
+			}
+			round++
+			_ = tl.Transmit("0xsender", rep, round)
+			synctest.Wait()
+		}
 		_ = pt.Close()
 		c.Obs.Success = pt.AllProgressComplete()
 		time.Sleep(2 * time.Second)
 		synctest.Wait()
 	})
 }
+
+func late(c c20Case, ks ...int) c20Case { c.Late = ks; return c }
 
 func wiredBoundary() []c20Case {
 	g := uint64(1000)
@@ -788,6 +810,10 @@ func wiredBoundary() []c20Case {
 		mk("no-upkeeps-but-performed", nil, []int{1}),
 		mk("never-eligible-but-performed", []c20Gen{{Block: g, Count: 3, StartID: 200, Elig: "never", Type: "conditional", Expected: "all", EvType: "generateUpkeeps"}}, []int{1}),
 		mk("none-expected-empty-report-loaded", gen("none"), []int{0}),
+		late(mk("expected-4-performed-3-and-1-never-in-a-block", gen("all"), []int{1}, []int{2}), 1),
+		late(mk("expected-4-performed-0-and-4-never-in-a-block", gen("all")), 2, 2),
+		late(mk("none-expected-one-never-in-a-block", gen("none"), []int{}), 1),
+		late(mk("expected-4-performed-4-and-more-never-in-a-block", gen("all"), []int{2}, []int{2}), 1, 3),
 	}
 }
 
@@ -805,6 +831,11 @@ func wiredRandom(r *Rng) c20Case {
 			reports = append(reports, 1+r.Intn(3))
 		}
 		c.Loads = append(c.Loads, reports)
+	}
+	if r.Chance(1, 3) {
+		for k := 0; k < 1+r.Intn(2); k++ {
+			c.Late = append(c.Late, 1+r.Intn(3))
+		}
 	}
 	return c
 }
